@@ -12,7 +12,9 @@ from vbuild import VERIF, InfraError
 
 PROPS = ["C01", "C02", "C03", "C04", "C05", "C06", "C17"]
 
-FLAGMAP = {"": (0, 0), "show": (1, 0), "update": (2, 0), "showupdate": (3, 0), "conc": (8, 0), "prio": (0, 0x10)}
+# model flag word -> (lock flag, timeout flag, expiry flag); "updkeep" also fixes Expried = 0xffff (keep the deadline)
+FLAGMAP = {"": (0, 0, 0), "show": (1, 0, 0), "update": (2, 0, 0), "showupdate": (3, 0, 0), "conc": (8, 0, 0), "prio": (0, 0x10, 0),
+           "unl": (0, 0, 0x4000), "updunl": (2, 0, 0x4000), "showupdunl": (3, 0, 0x4000), "updkeep": (2, 0, 0x4000)}
 UFLAGMAP = {"": 0, "first": 1, "cancel": 2}
 
 MC_CFG = '''SPECIFICATION Spec
@@ -44,7 +46,7 @@ PROPERTY ActionProps
 CHECK_DEADLOCK FALSE
 '''
 
-def behaviours_to_scenarios(lines, seed, limit):
+def behaviours_to_scenarios(lines, seed, limit, tag="tlc"):
     """TLC prints every prefix that satisfies the export condition; keep maximal behaviours only."""
     hs = set()
     for ln in lines:
@@ -75,14 +77,14 @@ def behaviours_to_scenarios(lines, seed, limit):
                 else:
                     steps.append({"op": "tick", "n": 1, "order": "te"})
             elif st["op"] == "lock":
-                fl, tf = FLAGMAP[st["fl"]]
+                fl, tf, ef = FLAGMAP[st["fl"]]
                 steps.append({"op": "lock", "conn": 1 + (st["lid"] + n) % 3, "db": 0, "key": st["key"], "lid": st["lid"], "flag": fl, "tf": tf,
-                              "ef": 0, "to": st["to"], "ex": st["ex"], "cnt": st["cnt"], "rc": st["rc"], "nodup": True})
+                              "ef": ef, "to": st["to"], "ex": 0xffff if st["fl"] == "updkeep" else st["ex"], "cnt": st["cnt"], "rc": st["rc"], "nodup": True})
             else:
                 steps.append({"op": "unlock", "conn": 1 + (st["lid"] + n) % 3, "db": 0, "key": st["key"], "lid": st["lid"], "flag": UFLAGMAP[st["fl"]],
                               "tf": 0, "ef": 0, "to": 0, "ex": 0, "cnt": 0, "rc": st["rc"]})
         steps.append({"op": "drain", "n": 12})
-        scs.append({"name": f"tlc-{seed}-{n}", "cfg": {}, "steps": steps, "complete": True, "mode": "seq"})
+        scs.append({"name": f"{tag}-{seed}-{n}", "cfg": {}, "steps": steps, "complete": True, "mode": "seq"})
     return scs, len(hists)
 
 def fine_behaviours_to_scenarios(lines, seed, limit):
@@ -104,9 +106,9 @@ def fine_behaviours_to_scenarios(lines, seed, limit):
         for st in h:
             a = st.get("actor", "")
             if st["op"] == "lock":
-                fl, tf = FLAGMAP[st["fl"]]
-                actors[a] = {"op": "lock", "conn": 1 + int(a[1:]) % 4, "db": 0, "key": st["key"], "lid": st["lid"], "flag": fl, "tf": tf, "ef": 0,
-                             "to": st["to"], "ex": st["ex"], "cnt": st["cnt"], "rc": st["rc"], "nodup": True}
+                fl, tf, ef = FLAGMAP[st["fl"]]
+                actors[a] = {"op": "lock", "conn": 1 + int(a[1:]) % 4, "db": 0, "key": st["key"], "lid": st["lid"], "flag": fl, "tf": tf, "ef": ef,
+                             "to": st["to"], "ex": 0xffff if st["fl"] == "updkeep" else st["ex"], "cnt": st["cnt"], "rc": st["rc"], "nodup": True}
                 script.append(a)
             elif st["op"] == "unlock":
                 actors[a] = {"op": "unlock", "conn": 1 + int(a[1:]) % 4, "db": 0, "key": st["key"], "lid": st["lid"], "flag": UFLAGMAP[st["fl"]],
@@ -127,12 +129,29 @@ def directed_scenarios():
 
 # ------------------------------------------------------------------ self-test (binding demonstration)
 
-def corrupt_trace(prop, lines):
+SELFTEST_VARIANTS = {"C04": 2}
+# the code the monitor has to report for a variant (None: any violation of the property)
+SELFTEST_EXPECT = {("C04", 1): "admissible-queued-request-not-served"}
+
+def corrupt_trace(prop, lines, variant=0):
     """Return (corrupted lines, description) or None.  Each corruption changes ONE recorded field (or
     duplicates / swaps one recorded line) of a trace the monitor accepted."""
     evs = [json.loads(x) for x in lines]
     def dump():
         return [json.dumps(e) for e in evs]
+    if prop == "C04" and variant == 1:
+        # the SUCCED reply of a wake-up grant is re-addressed to a request id nobody sent: for the monitor the request stays
+        # queued and its hold never starts - at the next quiescent point a live queued request could be admitted
+        if not evs or evs[0].get("mode", "seq") != "seq" or any(x["e"] == "status" for x in evs):
+            return None
+        # keys on which a wait-until-unlocked / ack-required request was ever sent are not judged by that clause
+        special = {(x["db"], x["key"]) for x in evs if x["e"] == "req" and x["tf"] & (0x0200 | 0x1000)}
+        for i, e in enumerate(evs):
+            if e["e"] == "reply" and e["ct"] == 1 and e["res"] == 0 and e["cur"] != e["rid"] and e["ex"] > 0 and e["cnt"] == 0 \
+               and (e["db"], e["key"]) not in special and any(x["e"] == "snap" for x in evs[i + 1:i + 6]):
+                e["rid"] = 987654321
+                return dump(), f"line {i+1}: rid of a wake-up grant rewritten to an id nobody sent (the grant is lost from the record)"
+        return None
     if prop == "C01":
         # an immediate TIMEOUT / queued request on a busy exclusive key is turned into SUCCED
         held = {}
@@ -180,7 +199,20 @@ def corrupt_trace(prop, lines):
     return None
 
 def selftest(prop, traces, workdir):
-    """Corrupt one accepted trace; the monitor must reject it for this property."""
+    """Corrupt one accepted trace per variant; the monitor must reject each for this property."""
+    res = selftest1(prop, traces, workdir, 0)
+    for v in range(1, SELFTEST_VARIANTS.get(prop, 1)):
+        r2 = selftest1(prop, traces, workdir, v)
+        want = SELFTEST_EXPECT.get((prop, v))
+        if r2["rejected"] and want and want not in r2["codes"]:
+            r2["rejected"] = False
+        res.setdefault("more", []).append(r2)
+        if r2["rejected"] is False or (r2["rejected"] is None and res["rejected"] is not None):
+            res["rejected"] = False
+            res["corruption"] = r2["corruption"] or f"variant {v}: no trace offers the pattern"
+    return res
+
+def selftest1(prop, traces, workdir, variant):
     for tr in traces:
         with open(tr) as fh:
             lines = fh.read().splitlines()
@@ -190,15 +222,152 @@ def selftest(prop, traces, workdir):
         for a, b in zip(starts, starts[1:]):
             if b - a > 4000:
                 continue
-            res = corrupt_trace(prop, lines[a:b])
+            res = corrupt_trace(prop, lines[a:b], variant)
             if res:
                 cl, desc = res
-                p = os.path.join(workdir, f"selftest_{prop}.ndjson")
+                p = os.path.join(workdir, f"selftest_{prop}_{variant}.ndjson")
                 with open(p, "w") as fh:
                     fh.write("\n".join(cl) + "\n")
-                viols, _ = engine.monitor_traces("MonLock", [p], [prop], os.path.join(workdir, "selftest"))
+                viols, _ = engine.monitor_traces("MonLock", [p], [prop], os.path.join(workdir, f"selftest{variant}"))
                 return {"corruption": desc, "rejected": len(viols) > 0, "codes": sorted({v["code"] for v in viols})}
     return {"corruption": None, "rejected": None}
+
+# ------------------------------------------------------------------ measured coverage of the additions
+
+def terms_coverage(traces):
+    """What the recorded histories actually did (evidence only, never a verdict): a light book-keeping of holds and
+    queued requests from the req / ret / reply events of the real code."""
+    c = {"updates_changing_only_terms_of_unlimited_hold": 0, "of_which_by_oldest_holder": 0, "of_which_lower_count": 0,
+         "keep_deadline_updates_changing_terms": 0, "updates_changing_count_of_timed_hold": 0, "show_update_changing_terms": 0,
+         "new_requests_answered_after_oldest_count_lowered": 0, "of_which_refused": 0,
+         "relocks_changing_count": 0, "of_which_with_other_holders": 0, "of_which_to_count_zero_with_other_holders": 0,
+         "unlocks_by_later_holder_after_oldest_count_replaced": 0, "of_which_oldest_count_zero": 0,
+         "relocks_by_later_holder_after_oldest_count_replaced": 0, "max_holders_when_oldest_count_replaced": 0,
+         "priority_switches_on_queue_over_128": 0, "queue_sizes_at_priority_switch": [], "switch_after_partial_service": 0,
+         "priority_switches_after_queue_peaked_over_128": 0, "peak_and_live_queue_at_those_switches": [],
+         "wake_grants_after_switch_on_big_queue": 0, "max_queued_on_one_key": 0}
+    for tr in traces:
+        reqs, holds, wq, lowered, replaced, served, switched, peak = {}, {}, {}, set(), set(), {}, set(), {}
+        with open(tr) as fh:
+            for ln in fh:
+                if ln.startswith('{"e":"snap"') or ln.startswith('{"e":"tock"'):
+                    continue
+                e = json.loads(ln)
+                k = e.get("e")
+                if k == "begin":
+                    reqs, holds, wq, lowered, replaced, served, switched, peak = {}, {}, {}, set(), set(), {}, set(), {}
+                elif k == "req":
+                    e["done"] = False
+                    reqs[e["id"]] = e
+                elif k == "ret":
+                    r = reqs.get(e["id"])
+                    if r and not r["done"] and r["cmd"] == "L":
+                        key = (r["db"], r["key"])
+                        q = wq.setdefault(key, {})
+                        pr = r["rc"] if r["tf"] & 0x10 else 0
+                        if not q:
+                            peak[key] = 0
+                        # the queue was longer than 128 since it was last empty (its older part sits in the inline slice, the
+                        # newer part in the plain ring, however many were served since) and now meets another priority
+                        if q and peak.get(key, 0) > 128 and len({v for v in q.values()}) == 1 and pr not in q.values():
+                            c["priority_switches_after_queue_peaked_over_128"] += 1
+                            c["peak_and_live_queue_at_those_switches"].append([peak[key], len(q)])
+                            switched.add(key)
+                        if len(q) > 128 and len({v for v in q.values()}) == 1 and pr not in q.values():
+                            c["priority_switches_on_queue_over_128"] += 1
+                            c["queue_sizes_at_priority_switch"].append(len(q))
+                            if served.get(key, 0) > 0:
+                                c["switch_after_partial_service"] += 1
+                            switched.add(key)
+                        q[r["id"]] = pr
+                        peak[key] = max(peak.get(key, 0), len(q))
+                        c["max_queued_on_one_key"] = max(c["max_queued_on_one_key"], len(q))
+                elif k == "reply":
+                    r = reqs.get(e["rid"])
+                    if r is None:
+                        continue
+                    key = (r["db"], r["key"])
+                    H = holds.setdefault(key, [])
+                    was_queued = r["id"] in wq.get(key, {})
+                    if e["res"] == 9 and r["done"]:
+                        holds[key] = [h for h in H if h["lid"] != e["lid"]]
+                        continue
+                    r["done"] = True
+                    wq.get(key, {}).pop(r["id"], None)
+                    idx = next((i for i, h in enumerate(H) if h["lid"] == e["lid"]), -1)
+                    if r["cmd"] == "L":
+                        unl = bool(r["ef"] & 0x4000)
+                        fresh = (idx < 0 or was_queued)
+                        if fresh and e["res"] in (0, 8) and key in lowered and not was_queued:
+                            c["new_requests_answered_after_oldest_count_lowered"] += 1
+                            c["of_which_refused"] += e["res"] == 8
+                        if e["res"] == 0 and r["ex"] > 0:
+                            if fresh:
+                                if was_queued:
+                                    served[key] = served.get(key, 0) + 1
+                                    if key in switched:
+                                        c["wake_grants_after_switch_on_big_queue"] += 1
+                                H.append({"lid": e["lid"], "cnt": r["cnt"], "rc": r["rc"], "unl": unl, "depth": 1})
+                            else:
+                                h = H[idx]
+                                if h["cnt"] != r["cnt"]:
+                                    c["relocks_changing_count"] += 1
+                                    if len(H) > 1:
+                                        c["of_which_with_other_holders"] += 1
+                                        c["of_which_to_count_zero_with_other_holders"] += r["cnt"] == 0
+                                    if idx == 0:
+                                        replaced.add(key)
+                                        c["max_holders_when_oldest_count_replaced"] = max(c["max_holders_when_oldest_count_replaced"], len(H))
+                                        if r["cnt"] < h["cnt"]:
+                                            lowered.add(key)
+                                elif idx > 0 and key in replaced:
+                                    c["relocks_by_later_holder_after_oldest_count_replaced"] += 1
+                                keep = unl and r["ex"] == 0xffff
+                                h.update(cnt=r["cnt"], rc=r["rc"], depth=h["depth"] + 1, unl=h["unl"] if keep else unl)
+                        elif e["res"] == 5 and r["flag"] & 2 and idx >= 0:
+                            h = H[idx]
+                            keep = unl and r["ex"] == 0xffff
+                            changed = h["cnt"] != r["cnt"] or h["rc"] != r["rc"]
+                            if changed and r["flag"] & 1:
+                                c["show_update_changing_terms"] += 1
+                            if changed and keep:
+                                c["keep_deadline_updates_changing_terms"] += 1
+                            elif changed and unl and h["unl"]:
+                                c["updates_changing_only_terms_of_unlimited_hold"] += 1
+                                c["of_which_by_oldest_holder"] += idx == 0
+                                c["of_which_lower_count"] += r["cnt"] < h["cnt"]
+                            elif h["cnt"] != r["cnt"] and not unl and not h["unl"]:
+                                c["updates_changing_count_of_timed_hold"] += 1
+                            if idx == 0 and h["cnt"] != r["cnt"]:
+                                replaced.add(key)
+                                c["max_holders_when_oldest_count_replaced"] = max(c["max_holders_when_oldest_count_replaced"], len(H))
+                                if r["cnt"] < h["cnt"]:
+                                    lowered.add(key)
+                            elif idx > 0 and key in replaced:
+                                c["relocks_by_later_holder_after_oldest_count_replaced"] += 1
+                            h.update(cnt=r["cnt"], rc=r["rc"], unl=h["unl"] if keep else unl)
+                    else:
+                        own = next((i for i, h in enumerate(H) if h["lid"] == r["lid"]), -1)
+                        if own > 0 and key in replaced and not e.get("drain"):
+                            c["unlocks_by_later_holder_after_oldest_count_replaced"] += 1
+                            c["of_which_oldest_count_zero"] += H[0]["cnt"] == 0
+                        if e["res"] == 0 and idx >= 0:
+                            h = H[idx]
+                            rc = r["rc"] if e["lid"] == r["lid"] else e["rc"]
+                            if h["depth"] > 1 and rc > 0 and e["lrc"] == h["depth"] - 1:
+                                h["depth"] -= 1
+                            else:
+                                H.pop(idx)
+                                if idx == 0:
+                                    lowered.discard(key); replaced.discard(key)
+    c["queue_sizes_at_priority_switch"] = sorted(c["queue_sizes_at_priority_switch"])[:40]
+    c["peak_and_live_queue_at_those_switches"] = sorted(c["peak_and_live_queue_at_those_switches"])[:40]
+    return c
+
+# what each property's own addition has to reach in every run (a run that does not is not evidence: exit 2)
+REACH = {"C01": ["of_which_by_oldest_holder", "new_requests_answered_after_oldest_count_lowered"],
+         "C02": ["of_which_to_count_zero_with_other_holders", "unlocks_by_later_holder_after_oldest_count_replaced"],
+         "C04": ["priority_switches_after_queue_peaked_over_128", "wake_grants_after_switch_on_big_queue"]}
 
 # ------------------------------------------------------------------ the check
 
@@ -245,6 +414,27 @@ def run(prop, tier, seed):
                         "generated": sk["generated"], "wall_s": round(rk["wall"], 1),
                         "invariants": ["NoHoldInDeadManager", "OneManagerPerHeldKey", "RefsCoverHolds", "MutexOK"]}
             st = {"distinct": st["distinct"] + sk["distinct"], "generated": st["generated"] + sk["generated"], "queue": 0}
+        # (1a') C01: the unlimited-expiry flag family and updates that change only the terms (UpdateSetsTerms), plus the
+        #       vacuity guard: with the named deviation UnlEqualSkipsCounts (seed class C01e) TLC must refute it
+        unlmodel = None
+        if prop == "C01":
+            with open(os.path.join(VERIF, "spec", "mc", "LockEngine_unl.cfg")) as fh:
+                ucfg = fh.read()
+            if not quick:
+                ucfg = ucfg.replace("MaxReq = 3", "MaxReq = 4")
+            ru = vtlc.run_tlc(os.path.join(VERIF, "spec"), "LockEngine", ucfg, os.path.join(wd, "mc_unl"), workers=engine.NCPU, timeout=600 if quick else 3600)
+            su = vtlc.parse_stats(ru["out"])
+            if su is None or "No error has been found" not in ru["out"]:
+                raise InfraError("LockEngine (unlimited flag family) exhaustive check did not complete cleanly (design model, not a verdict on the code):\n" + ru["out"][-3000:])
+            with open(os.path.join(VERIF, "spec", "mc", "LockEngine_unl_dev.cfg")) as fh:
+                dcfg = fh.read()
+            rd = vtlc.run_tlc(os.path.join(VERIF, "spec"), "LockEngine", dcfg, os.path.join(wd, "mc_unl_dev"), workers=engine.NCPU, timeout=300)
+            if "Action property ActionProps is violated" not in rd["out"]:
+                raise InfraError("vacuity guard failed: with the deviation UnlEqualSkipsCounts the model still satisfies UpdateSetsTerms:\n" + rd["out"][-2000:])
+            unlmodel = {"module": "spec/LockEngine.tla", "config": "spec/mc/LockEngine_unl.cfg", "requests": 3 if quick else 4,
+                        "distinct_states": su["distinct"], "generated": su["generated"], "wall_s": round(ru["wall"], 1),
+                        "action_property": "UpdateSetsTerms", "deviation_UnlEqualSkipsCounts_refuted": True, "deviation_wall_s": round(rd["wall"], 1)}
+            st = {"distinct": st["distinct"] + su["distinct"], "generated": st["generated"] + su["generated"], "queue": 0}
         # (1b) C05 / C06: the timer wheel design model (back-off re-checks, long-table hand-over, sweeper lag, updates)
         wheel = None
         if prop in ("C05", "C06"):
@@ -262,18 +452,39 @@ def run(prop, tier, seed):
         nb = 150 if quick else 3000
         with open(os.path.join(VERIF, "spec", "sim", "LockEngine_sim.cfg")) as fh:
             simcfg = fh.read()
-        rs = vtlc.run_tlc(os.path.join(VERIF, "spec"), "LockEngineSim", simcfg, os.path.join(wd, "sim"), workers=1, timeout=600,
-                          simulate=f"num={nb}", depth=120, seed=seed)
+        # (2b) "terms" walks: the holders come back with other Count / Rcount values (turn classes relock / newcomer / hunlock);
+        #      generated at the same time as the plain walks (two single-worker TLC processes)
+        nbt = 80 if quick else 1500
+        with open(os.path.join(VERIF, "spec", "sim", "LockEngine_sim_terms.cfg")) as fh:
+            tsimcfg = fh.read()
+        import concurrent.futures as _cf
+        with _cf.ThreadPoolExecutor(max_workers=2) as _ex:
+            f1 = _ex.submit(vtlc.run_tlc, os.path.join(VERIF, "spec"), "LockEngineSim", simcfg, os.path.join(wd, "sim"), workers=1, timeout=600,
+                            simulate=f"num={nb}", depth=120, seed=seed)
+            f2 = _ex.submit(vtlc.run_tlc, os.path.join(VERIF, "spec"), "LockEngineSim", tsimcfg, os.path.join(wd, "simterms"), workers=1, timeout=600,
+                            simulate=f"num={nbt}", depth=120, seed=seed)
+            rs, rt_ = f1.result(), f2.result()
         if "Error:" in rs["out"] and "BEHAVIOUR" not in rs["out"]:
             raise InfraError("behaviour generation failed:\n" + rs["out"][-2000:])
         beh, nprinted = behaviours_to_scenarios(rs["out"].splitlines(), seed, nb)
         if len(beh) < 10:
             raise InfraError("behaviour generation produced too few behaviours")
+        if "Error:" in rt_["out"] and "BEHAVIOUR" not in rt_["out"]:
+            raise InfraError("behaviour generation (terms walks) failed:\n" + rt_["out"][-2000:])
+        behterms, nprinted_t = behaviours_to_scenarios(rt_["out"].splitlines(), seed, nbt, tag="tlcterms")
+        if len(behterms) < 10:
+            raise InfraError("behaviour generation (terms walks) produced too few behaviours")
+        beh = beh + behterms
         # (3) wide-range + directed
         nr = 180 if quick else 4000
         rnd = [gen_core.gen_scenario(seed, i) for i in range(nr)]
+        terms = [gen_core.gen_terms(seed, i) for i in range(36 if quick else 900)]     # Count / Rcount changing between the requests of one LockId
+        rnd += terms
         big = [gen_core.gen_big(seed, i) for i in range(24 if quick else 240)]
         big += [gen_core.gen_edge(seed, i) for i in range(16 if quick else 160)]       # boundary values of the request fields
+        bigq = [gen_core.gen_bigq(seed, i) for i in range(5 if quick else 60)]         # priority switch on a wait queue that outgrew its inline part
+        bigq += gen_core.bigq_directed()
+        big += bigq
         direct = directed_scenarios()
         scs = beh + rnd + big + direct
         binp = vbuild.build_inpkg("server", wd)
@@ -322,6 +533,12 @@ def run(prop, tier, seed):
         for v in viols:
             if v["prop"] == prop:
                 out.viols.append((v, byname.get(v.get("name"))))
+        # (4b) what the additions reached on the real code (measured); a run in which the property's own addition reached
+        #      nothing is not evidence
+        tcov = terms_coverage([fout for fin, fout, p in res])
+        for kq in REACH.get(prop, []):
+            if not tcov[kq]:
+                raise InfraError(f"the generated histories did not reach '{kq}' (generator problem, not a verdict)")
         # (5) self-test
         stest = selftest(prop, traces, wd)
         if stest["rejected"] is False:
@@ -332,7 +549,7 @@ def run(prop, tier, seed):
             from checks import sessfam
             realproto = sessfam.run_c03_part(out, tier, seed, wd)
         samples = []
-        for sc in (beh[:1] + rnd[:1]):
+        for sc in (beh[:1] + rnd[:1] + behterms[:1] + terms[:1]):
             samples.append({"name": sc["name"], "steps": sc["steps"][:12]})
         out.coverage = {
             "states": st["distinct"], "transitions": st["generated"], "traces_validated_against_impl": len(scs),
@@ -340,8 +557,10 @@ def run(prop, tier, seed):
             "model": {"module": "spec/LockEngine.tla", "constants": "1 key, 3 LockIds, Count {0,1}, Rcount {0,1}, T {0,2}, E {0,2}, flags show/update/showupdate/conc/prio, unlock first/cancel, <= %d requests, clock <= %d" % ((3, 3) if quick else (4, 4)),
                       "invariants": ["HoldersWellFormed", "OneTerminalReply", "QueuedMeansLive", "NoLostWakeup", "WaitedFlagInv", "QueueOrderInv", "GrantOK", "RefusedUnlockChangesNothing", "NoEarlyTimeout"],
                       "wall_s": round(mc_wall, 1)},
-            "timer_wheel_model": wheel, "key_table_model": keytable,
+            "timer_wheel_model": wheel, "key_table_model": keytable, "unlimited_flag_model": unlmodel,
             "tlc_behaviours_replayed": len(beh), "tlc_behaviour_prefixes_printed": nprinted,
+            "tlc_terms_behaviours_replayed": len(behterms), "terms_histories": len(terms), "big_queue_priority_switch_histories": len(bigq),
+            "terms_and_big_queue_coverage": tcov,
             "gated_concurrent_histories": len(conc), "tlc_fine_schedules_replayed": len(fine), "realtime_ms_histories": len(rt), "random_histories": len(rnd), "big_histories": len(big), "directed_histories": len(direct),
             "monitor": {"module": "spec/mon/MonLock.tla", "events": mst["events"], "monitor_states": mst["monitor_states"], "clauses_of": prop},
             "selftest": stest, "real_protocol_connections": realproto,
